@@ -21,8 +21,10 @@ type PropMap struct {
 }
 
 type Baseline struct {
-	Property    string   `json:"property"`
-	Obligations []string `json:"obligations"`
+	Property      string   `json:"property"`
+	Obligations   []string `json:"obligations"`
+	ConditionalOn []string `json:"conditional_on,omitempty"` // assumed checks generated but not discharged when the baseline was taken
+	NotClaimed    []string `json:"not_claimed,omitempty"`    // other generated obligations that did not discharge
 }
 
 type KnownFindings struct {
@@ -287,12 +289,48 @@ func cmdCheck(writeBaseline bool, argv []string) int {
 	if *tier == "thorough" {
 		to = 60
 	}
-	solveAll(obls, SolverCfg{WorkDir: work, TimeoutS: to, All: *tier == "thorough", KeepFiles: *keep})
+	// quick tier: solve what is claimed (baseline), what is watched (known or
+	// repaired findings), and - when a baseline obligation is no longer
+	// generated - the new obligations of the same function and kind that may
+	// have replaced it. The baseline command and the thorough tier solve all.
+	toSolve := obls
+	if !writeBaseline && *tier != "thorough" {
+		var bl0 Baseline
+		readJSON(filepath.Join(*verif, "baseline", prop+".json"), &bl0)
+		var kf0 KnownFindings
+		readJSON(filepath.Join(*verif, "known_findings.json"), &kf0)
+		want := map[string]bool{}
+		for _, id := range bl0.Obligations {
+			want[id] = true
+		}
+		for _, f := range append(append([]Finding{}, kf0.Findings...), kf0.Fixed...) {
+			if f.Property == prop {
+				want[f.Obligation] = true
+			}
+		}
+		have := map[string]bool{}
+		for _, o := range obls {
+			have[o.ID] = true
+		}
+		missingFK := map[string]bool{}
+		for _, id := range bl0.Obligations {
+			if !have[id] {
+				missingFK[funcKindOf(id)] = true
+			}
+		}
+		toSolve = nil
+		for _, o := range obls {
+			if want[o.ID] || missingFK[o.Func+"#"+o.Kind] {
+				toSolve = append(toSolve, o)
+			}
+		}
+	}
+	solveAll(toSolve, SolverCfg{WorkDir: work, TimeoutS: to, All: *tier == "thorough", KeepFiles: *keep})
 
 	// machine load must not turn into alarms: undecided obligations get one
 	// more attempt with four times the budget and less parallelism
 	var retry []*Obl
-	for _, o := range obls {
+	for _, o := range toSolve {
 		if o.Status == "timeout" || o.Status == "unknown" {
 			o.Status, o.Solver = "", ""
 			retry = append(retry, o)
@@ -356,7 +394,7 @@ func cmdCheck(writeBaseline bool, argv []string) int {
 			} else if from, ok := taintFrom[o.Func]; ok && pos[o] > from {
 				tainted = "follows an undischarged assumed check"
 			}
-			if o.Status == "unsat" && o.Secs < 12 && tainted == "" {
+			if o.Status == "unsat" && o.Secs < 6 && tainted == "" {
 				ids = append(ids, o.ID)
 			} else if tainted != "" && o.Status == "unsat" {
 				fmt.Printf("TAINTED (%s): %s\n", tainted, o.ID)
@@ -366,7 +404,20 @@ func cmdCheck(writeBaseline bool, argv []string) int {
 		}
 		sort.Strings(ids)
 		os.MkdirAll(filepath.Dir(blFile), 0o755)
-		writeJSON(blFile, Baseline{Property: prop, Obligations: ids})
+		inB := map[string]bool{}
+		for _, id := range ids {
+			inB[id] = true
+		}
+		var notClaimed []string
+		for _, o := range obls {
+			if !inB[o.ID] {
+				notClaimed = append(notClaimed, fmt.Sprintf("%s [%s]", o.ID, o.Status))
+			}
+			if inB[o.ID] && o.Secs > 3 {
+				fmt.Printf("SLOW %5.2fs %s\n", o.Secs, o.ID)
+			}
+		}
+		writeJSON(blFile, Baseline{Property: prop, Obligations: ids, ConditionalOn: conditionalOn(results, inB), NotClaimed: notClaimed})
 		fmt.Printf("baseline %s: %d obligations (of %d generated)\n", prop, len(ids), len(obls))
 		for _, u := range unbound {
 			fmt.Println("UNBOUND", u)
@@ -431,6 +482,12 @@ func cmdCheck(writeBaseline bool, argv []string) int {
 		}
 		viols = append(viols, viol{o, id, o.Status})
 	}
+	notClaimedAtBaseline := map[string]bool{}
+	for _, nc := range bl.NotClaimed {
+		if i := strings.LastIndex(nc, " ["); i > 0 {
+			notClaimedAtBaseline[nc[:i]] = true
+		}
+	}
 	// baseline obligations that vanished: acceptable only if the obligations
 	// that replaced them (same function and kind) all discharge
 	var undecided []string
@@ -439,10 +496,14 @@ func cmdCheck(writeBaseline bool, argv []string) int {
 			continue
 		}
 		solverSecs += o.Secs
-		if o.Status == "unsat" {
+		if o.Status == "unsat" || o.Status == "" {
 			continue
 		}
 		fk := o.Func + "#" + o.Kind
+		if notClaimedAtBaseline[o.ID] {
+			// already undischarged when the baseline was taken: not a regression
+			continue
+		}
 		if len(missingByFuncKind[fk]) > 0 {
 			viols = append(viols, viol{o, o.ID, o.Status + " (replaces baseline obligation " + missingByFuncKind[fk][0] + ")"})
 		} else if _, isKnown := known[o.ID]; isKnown {
@@ -564,7 +625,8 @@ func cmdCheck(writeBaseline bool, argv []string) int {
 		"generated_obligations":    len(obls),
 		"reachability_covers":      len(covers),
 		"vacuous_paths":            vacuous,
-		"conditional_on":           conditionalOn(results, inBL),
+		"conditional_on":           bl.ConditionalOn,
+		"not_claimed":              bl.NotClaimed,
 		"accepted_dead_paths":      deadAccepted,
 		"undecided_not_claimed":    undecided,
 		"by_solver":                bySolver,
